@@ -5,7 +5,8 @@ hold for an object that came to hold v by any history, in particular one during 
 been used on the same object (a memoised result that is not invalidated is invisible on fresh objects).
 
 variants(obj, warm) enumerates, besides the fresh object, every way of the small history alphabet
-    {assign every item over a decoy, reverse a reversed copy, append to a decoy then pop the decoy value}
+    {assign every item over a decoy, the same over a copy / deep copy / unpickled copy of the decoy, reverse a reversed copy,
+     append to a decoy then pop the decoy value}
 of arriving at an object of the same class holding exactly obj's values, with `warm` (the calls under test) executed on
 the object BEFORE the mutation.  The caller runs its ordinary oracle on each variant.
 """
@@ -63,6 +64,21 @@ def variants(obj, warm, fresh=True):
             break
     if ok and len(D.data) == n and all(np.array_equal(a, b) for a, b in zip(D.data, vals)):
         yield 'setitem', D
+    # 1b. the same through a copy of the warmed decoy (copy.copy, copy.deepcopy, a pickle round trip carry the instance dictionary along)
+    import copy as _copy
+    import pickle as _pickle
+    for ctag, cf in (('copy', _copy.copy), ('deepcopy', _copy.deepcopy), ('pickle', lambda o: _pickle.loads(_pickle.dumps(o)))):
+        D = _raw(cls, _decoy_values(obj))
+        _safe(warm, D)
+        try:
+            D2 = cf(D)
+            for i, v in enumerate(vals):
+                D2[i] = _raw(cls, [v])
+            _safe(warm, D)          # the original decoy is used again afterwards (must not disturb the copy)
+            if type(D2) is cls and len(D2.data) == n and all(np.array_equal(a, b) for a, b in zip(D2.data, vals)):
+                yield ctag + '+setitem', D2
+        except Exception:
+            pass
     # 2. a warmed reversed copy, reversed back
     if n > 1:
         D = _raw(cls, vals[::-1])
